@@ -50,6 +50,9 @@ type C18Contained struct {
 	Idx   int    `json:"idx"`
 	Type  string `json:"type"` // resource type the generator saw at contained[Idx]
 	Inner string `json:"inner"`
+	// Single: the path says `.contained` without an index, which denotes contained[Idx] only
+	// while the list has exactly one entry
+	Single bool `json:"single,omitempty"`
 }
 
 type C18Client struct {
@@ -366,6 +369,9 @@ func (e *c18Exec) stepOp(r *runCtx, oc *opCtx, in *inputs, res fhir.Resource, ci
 		// failed or was faulted): the decomposition is only valid if contained[Idx] still is
 		// a resource of the recorded type
 		inner, err := unpackContained(res, cont.Idx)
+		if err == nil && cont.Single && containedLen(res) != 1 {
+			err = fmt.Errorf("the un-indexed path no longer denotes a single contained resource")
+		}
 		if err != nil || string(inner.ProtoReflect().Descriptor().Name()) != cont.Type {
 			cont = nil
 			st.probe("contained-target-unmodelled")
@@ -412,7 +418,7 @@ func (e *c18Exec) stepOp(r *runCtx, oc *opCtx, in *inputs, res fhir.Resource, ci
 		case "":
 		case "callback-error", "option-fail":
 			st.fault(part)
-		case "contained", "inverse", "absent", "populated":
+		case "contained", "inverse", "absent", "populated", "repeat":
 			st.probe("op-" + part)
 		default:
 			st.fault("bad-arg:" + part)
@@ -663,6 +669,15 @@ func unpackContained(res proto.Message, idx int) (fhir.Resource, error) {
 		return nil, fmt.Errorf("contained[%d] is not a resource", idx)
 	}
 	return fr, nil
+}
+
+func containedLen(res proto.Message) int {
+	r := res.ProtoReflect()
+	cf := r.Descriptor().Fields().ByName("contained")
+	if cf == nil || !cf.IsList() {
+		return 0
+	}
+	return r.Get(cf).List().Len()
 }
 
 // withContained returns a copy of res whose contained[idx] holds inner.
